@@ -154,6 +154,7 @@ def main():
     manifest = {
         'version': 1,
         'setup_cmd': '/venv/bin/pip install -q --no-index --find-links /opt/veriftools/wheels hypothesis >/dev/null 2>&1; '
+                     '/venv/bin/pip install -q --no-index --find-links /opt/veriftools/wheels --target /verif/.deps atheris >/dev/null 2>&1; '
                      '/venv/bin/python -c "import hypothesis, vivarium"',
         'hooks': {
             'guard': 'VIVARIUM_CORE_VERIF',
